@@ -141,6 +141,11 @@ impl<'inp, 'out, T> IntoIterator for InOutBuf<'inp, 'out, T> {
 }
 
 // ---------- core: slice / mem helpers without a vstd specification ----------
+pub assume_specification<T, E, U, O: FnOnce(T) -> Result<U, E>>[Result::<T, E>::and_then](r: Result<T, E>, op: O) -> (res: Result<U, E>)
+    requires r is Ok ==> op.requires((r->Ok_0,))
+    ensures r is Err ==> res is Err && res->Err_0 == r->Err_0,
+            r is Ok ==> op.ensures((r->Ok_0,), res);
+
 pub assume_specification<T> [<[T]>::split_last_mut] (s: &mut [T]) -> (r: Option<(&mut T, &mut [T])>)
     ensures
         old(s)@.len() == 0 ==> r is None && final(s)@ == old(s)@,
